@@ -2,18 +2,20 @@
 """import confirmed sub-agent seeds: bin/import_seeds.py <confirm.log> ; copies from /tmp/wt_<P>/seed into /verif/seeded/<P>-<k>/"""
 import json, os, re, shutil, sys
 for line in open(sys.argv[1]):
-    m = re.match(r'RESULT (/tmp/wt_(\w+)) (\d+) demo_clean=(\d+) demo_patched=(\d+) tests: (.*)', line.strip())
+    m = re.match(r'RESULT (/tmp/w[t2]_(\w+)) (\d+) demo_clean=(\d+) demo_patched=(\d+) tests: (.*)', line.strip())
     if not m: continue
     wt, tag, k, dc, dp, tests = m.groups()
+    src_k = k
+    if '/w2_' in wt: k = str(int(k) + 2)   # second-round seeds are numbered 3 and 4
     prop = tag.split('_')[0]
     ok = dc == '0' and dp != '0' and '46 passed' in tests
     dst = '/verif/seeded/%s-%s' % (tag, k)
     if not ok:
         print('NOT confirmed', tag, k, line.strip()); continue
     os.makedirs(dst, exist_ok=True)
-    shutil.copy('%s/seed/patch%s.diff' % (wt, k), dst + '/patch.diff')
-    shutil.copy('%s/seed/demo%s.py' % (wt, k), dst + '/demo.py')
-    try: meta = json.load(open('%s/seed/meta%s.json' % (wt, k)))
+    shutil.copy('%s/seed/patch%s.diff' % (wt, src_k), dst + '/patch.diff')
+    shutil.copy('%s/seed/demo%s.py' % (wt, src_k), dst + '/demo.py')
+    try: meta = json.load(open('%s/seed/meta%s.json' % (wt, src_k)))
     except Exception: meta = {}
     old = {}
     if os.path.exists(dst + '/meta.json'):
@@ -21,7 +23,7 @@ for line in open(sys.argv[1]):
     meta['property'] = meta.get('property', prop)
     meta['confirmed_by_me'] = {'worktree': wt, 'demo_exit_clean_tree': int(dc), 'demo_exit_with_patch': int(dp),
                                'baseline_tests_with_patch': tests,
-                               'cmd': 'bin/confirm_seed %s %s' % (wt, k)}
+                               'cmd': 'bin/confirm_seed %s %s' % (wt, src_k)}
     if 'checks' in old: meta['checks'] = old['checks']
     json.dump(meta, open(dst + '/meta.json', 'w'), indent=1)
     print('imported', dst)
